@@ -78,9 +78,9 @@ func estimateMatrix(est st.MatrixEstimator, x []ad.ConstMatrix, gamma ad.ConstVe
 func RunMatrixEstimators(c *core.Ctx, checkEM bool) {
 	t := c.Tape
 	cfg := drawPool(t)
-	kind := t.Choose(4)
+	kind := t.Choose(5)
 	if checkEM {
-		kind = 1 + t.Choose(2)
+		kind = []int{1, 2, 4}[t.Choose(3)]
 	}
 	rows := t.Range(1, 3)
 	cols := t.Range(1, 3)
@@ -142,6 +142,28 @@ func RunMatrixEstimators(c *core.Ctx, checkEM bool) {
 			}}
 			return me.NewMixtureEstimator([]float64{1, 2}, []st.MatrixEstimator{mkId(-1, rows), mkId(1, rows)}, math.Inf(-1), steps, hook)
 		}
+	case 4:
+		// nested EM: a matrix HMM whose emissions are vector mixtures (each
+		// M-step of Baum-Welch runs the inner EM on the weighted rows)
+		emis = 0
+		inner := t.Range(1, 3)
+		what = fmt.Sprintf("matrix:hmm-of-vector-mixtures(cols=%d,steps=%d,inner-steps=%d)", cols, steps, inner)
+		mk = func(tr *[]float64) (st.MatrixEstimator, error) {
+			hook := generic.BaumWelchHook{Value: func(h generic.BasicHmm, i int, likelihood, epsilon float64) {
+				if i > 0 {
+					*tr = append(*tr, likelihood)
+				}
+			}}
+			mkMix := func(shift float64) st.VectorEstimator {
+				m, err := ve.NewMixtureEstimator([]float64{1, 2}, []st.VectorEstimator{mkRow(shift - 1), mkRow(shift + 1)}, math.Inf(-1), inner)
+				if err != nil {
+					panic(err)
+				}
+				return m
+			}
+			return me.NewHmmEstimator(ad.NewDenseFloat64Vector([]float64{0.5, 0.5}), ad.NewDenseFloat64Matrix([]float64{0.75, 0.25, 0.375, 0.625}, 2, 2), nil, nil, nil,
+				[]st.VectorEstimator{mkMix(-2), mkMix(2)}, math.Inf(-1), steps, hook)
+		}
 	case 3:
 		// shape HMM: every emission is a matrix distribution over a window of
 		// w consecutive rows, estimated through the batch interface
@@ -194,7 +216,7 @@ func RunMatrixEstimators(c *core.Ctx, checkEM bool) {
 	}
 	for r := 0; r < nrec; r++ {
 		n := rows
-		if kind == 2 {
+		if kind == 2 || kind == 4 {
 			n = t.Range(1, 6) // sequence length
 		}
 		if kind == 3 {
